@@ -85,7 +85,15 @@ func runOneCtx(ctx context.Context, sp solverSpec, script string, to time.Durati
 	_ = cmd.Run()
 	secs := time.Since(t0).Seconds()
 	o := out.String()
-	first := strings.TrimSpace(strings.SplitN(o, "\n", 2)[0])
+	first := ""
+	for _, ln := range strings.Split(o, "\n") {
+		ln = strings.TrimSpace(ln)
+		if ln == "" || strings.HasPrefix(ln, "WARNING:") {
+			continue
+		}
+		first = ln
+		break
+	}
 	st := "error"
 	switch {
 	case first == "unsat":
